@@ -2,6 +2,7 @@
 //! usage: rfverif <property> --tier quick|thorough --seed N --out DIR
 #![feature(rustc_private)]
 extern crate rustc_lexer;
+mod boundary;
 mod c01;
 mod c01lit;
 mod c02;
@@ -75,6 +76,7 @@ fn main() {
         "c13" => c13::run(&tier, seed, &out),
         "c13api" => c13::api_main(&args[2..]),
         "c18" => c18::run(&tier, seed, &out),
+        "boundary" => boundary::main(&args[2..]),
         "probe" => probe(&out),
         // rfverif tokens <file> [keep]  : the encoded token list of a file (for the C01/C03 validators)
         "tokens" => { let src = std::fs::read_to_string(&args[2]).unwrap_or_default(); println!("{}", toks::encode_tokens(&src, args.get(3).map(|s| s == "keep").unwrap_or(false))); 0 }
